@@ -710,9 +710,13 @@ package zh
 //@   ensures pWF(p) && p.Lexer == old(p.Lexer) && p.Lexer.cursor >= old(p.Lexer.cursor)
 //@   ensures [complete] result != nil && result.ptr != 0
 
+// C18: a statement is stamped with the physical line (index into the line table) that contains the first character of its first token
 //@ method (*ParserZH).setStmtCurrentLine
 //@   requires pWF(p) && s != nil && s.ptr != 0
 //@   modifies key:F$syntax.StmtBase$currentLine, key:F$syntax.ExprBase$currentLine
+//@   ensures [stamped-whenever-there-is-a-token] tk != nil ==> @Statement_SetCurrentLine#1.done && @Lexer_FindLineIdx#1.done
+//@   assert call [line-of-the-first-token] Lexer_FindLineIdx#1: arg1 == tk.StartIdx
+//@   assert call [the-stamp-is-that-line] Statement_SetCurrentLine#1: arg0 == s && arg1 == @Lexer_FindLineIdx#1.r0
 
 // entry point of the front end: a fresh lexer is attached, the first token is read, the program is parsed; trailing
 // input that is not part of the program is a syntax error. Errors of productions arrive as panics (caught by Parser.Parse).
